@@ -152,6 +152,8 @@ class Tokenizer:
             pos += len(found)
             col += len(found)
 
+        # used to merge S around omitted comments
+        lastname, aftercomment = None, False
         # Avoid repeated function call
         _len_text = len(text)
         _orig_text = text
@@ -163,6 +165,7 @@ class Tokenizer:
             c = text[pos]
             if c in ',:;{}>[]':  # + but in num!
                 yield ('CHAR', c, line, col)
+                lastname, aftercomment = 'CHAR', False
                 col += 1
                 pos += 1
 
@@ -255,10 +258,14 @@ class Tokenizer:
                             else:
                                 value = found
 
-                        if self._doComments or (
-                            not self._doComments and name != 'COMMENT'
-                        ):
-                            yield (name, value, line, col)
+                        if not self._doComments and name == 'COMMENT':
+                            # omitted, S before and after must not become S S
+                            aftercomment = True
+                        else:
+                            if not (name == 'S' and aftercomment and lastname == 'S'):
+                                yield (name, value, line, col)
+                                lastname = name
+                            aftercomment = False
 
                         pos += len(found)
                         nls = found.count(self._linesep)
